@@ -121,9 +121,6 @@ fn check_octal(prefix: &str, text: &str, value: u32, acc: &mut Acc) {
 
 /// The emitted comparison for (kind, bits) must select exactly the files the check names.
 fn check_policy(kind: PermKind, bits: u32, all_modes: bool, acc: &mut Acc) {
-    if kind == PermKind::Any && bits == 0 {
-        return;
-    }
     acc.states += 1;
     acc.transitions += 1;
     acc.validated += 1;
@@ -268,7 +265,7 @@ pub fn run(ctx: &Ctx) -> i32 {
             bound: format!("4096 octal values x (3|4 digits) x 3 prefixes; 315 single clauses x 3 prefixes; all 99225 two-clause lists{}; {reach} reachable modes x 315 clauses; 3 check kinds x 4096 modes executed on 16 directed modes x 3 file types{}", if ctx.tier == Tier::Thorough { " under all three prefixes; all 91125 three-clause lists over 45 clauses" } else { " under all three prefixes" }, if ctx.tier == Tier::Thorough { "; 192 checks executed on all 4096 modes x 3 types" } else { "" }),
             assumptions: vec![
                 "chmod(1) algebra from mode 0 for the supported clause subset [ugoa]+[+-=][rwx]+".into(),
-                "-perm /000 is excluded (GNU find special-cases it)".into(),
+                "-perm /000 is judged by the rule as stated ('/' = any given bit set: no bit given, no file matches)".into(),
             ],
             extra,
         },
